@@ -679,11 +679,17 @@ pub mod sync {
                 if let Some(id) = id {
                     ME.with(|m| m.set(id));
                 }
-                let result = f();
-                if id.is_some() {
-                    sched_point(Pending::Exit);
+                if id.is_none() {
+                    return f();
                 }
-                result
+                // a managed thread that panics still leaves the schedule (its guards were released while
+                // unwinding); the panic then reaches whoever joins it, as without the scheduler
+                let result = std::panic::catch_unwind(std::panic::AssertUnwindSafe(f));
+                sched_point(Pending::Exit);
+                match result {
+                    Ok(value) => value,
+                    Err(payload) => std::panic::resume_unwind(payload),
+                }
             });
             if let Some(id) = id {
                 // wait until the child has announced its first operation, so that the set of enabled threads
